@@ -1,5 +1,22 @@
 """C07 -- step limits and cancellation always stop execution (DESIGN.md section 8, C07)."""
+import concurrent.futures as cf
+
 from .lib import coq_mismatches
+
+
+def coq_mismatches_par(ctx, name, header, cases, fns, shard, workers=4):
+    """coq_mismatches over shards evaluated by several coqc processes at once."""
+    chunks = [(i, cases[i:i + shard]) for i in range(0, len(cases), shard)]
+    bad = [[] for _ in fns]
+
+    def one(ic):
+        i, chunk = ic
+        return i, coq_mismatches(ctx, "%s_%d" % (name, i), header, chunk, fns, shard=shard)
+    with cf.ThreadPoolExecutor(max_workers=workers) as ex:
+        for i, res in ex.map(one, chunks):
+            for k in range(len(fns)):
+                bad[k].extend(i + j for j in res[k])
+    return bad
 
 LEVEL = "proof"
 META = {
@@ -105,9 +122,11 @@ def obs(o):
 
 def run(ctx):
     ctx.proofs()
+    ctx.log("proofs audited")
     hx = ctx.go_build("c07")
+    ctx.log("harness built")
     if ctx.quick():
-        args = ["-gen", "20", "-cap", "300", "-coq", "3000", "-life", "150", "-async", "40"]
+        args = ["-gen", "20", "-cap", "300", "-coq", "800", "-life", "150", "-async", "40"]
     else:
         args = ["-gen", "150", "-cap", "1500", "-coq", "24000", "-life", "3000", "-async", "400"]
     lines = ctx.jsonl([hx, "-seed", str(ctx.seed)] + args, timeout=800)
@@ -164,7 +183,7 @@ def run(ctx):
             terms.append("(CLife %d [%s] [%s])" % (l["n"], "; ".join(evs), "; ".join(ob)))
             refs.append(l)
     ctx.log("harness: %d lines, %d Go-oracle violations, %d cases for Coq" % (len(lines), nviol, len(terms)))
-    bad_model, bad_spec = coq_mismatches(ctx, "c07_cases", HEADER, terms, ["model_ok", "spec_ok"], shard=1500)
+    bad_model, bad_spec = coq_mismatches_par(ctx, "c07_cases", HEADER, terms, ["model_ok", "spec_ok"], shard=400 if ctx.quick() else 1500, workers=6)
     for i in bad_spec:
         l = refs[i]
         key = "spec:%s" % l["kind"]
